@@ -1063,3 +1063,10 @@ MUTANTS.append({"id": "C15-unclosed-publish-reported-after-lexer-restore", "prop
 MUTANTS.append({"id": "C15-benign-restore-scopes-first", "prop": "C15", "benign": True, "expect": None,
   "edits": [("src/cppparser/cppBison.yxx", "  if (publish_nest_level != 0) {\n    yyerror(\"Unclosed __begin_publish\", publish_loc);\n    publish_nest_level = 0;\n  }\n\n  current_scope = old_scope;\n  global_scope = old_global_scope;\n  current_lexer = old_lexer;\n",
              "  current_scope = old_scope;\n  global_scope = old_global_scope;\n\n  if (publish_nest_level != 0) {\n    yyerror(\"Unclosed __begin_publish\", publish_loc);\n    publish_nest_level = 0;\n  }\n\n  current_lexer = old_lexer;\n")]})
+
+M("C18-exponent-plus-sign-not-consumed", "C18", "src/cppparser/cppPreprocessor.cxx",
+  "      if (c == '-' || c == '+') {\n        num += get();", "      if (c == '-') {\n        num += get();",
+  expect="R18.5|get_number|exponent-sign")
+M("C18-benign-exponent-sign-order", "C18", "src/cppparser/cppPreprocessor.cxx",
+  "      if (c == '-' || c == '+') {\n        num += get();", "      if ('+' == c || '-' == c) {\n        num += get();",
+  benign=True)
